@@ -294,7 +294,16 @@ func visitInstr(fr *frame, instr ssa.Instruction) continuation {
 		if p == nil {
 			goPanic("runtime error: invalid memory address or nil pointer dereference")
 		}
-		fr.env[instr] = &(*p).(structure)[instr.Field]
+		fa := &(*p).(structure)[instr.Field]
+		fr.env[instr] = fa
+		// remember which struct an RWMutex field belongs to (see MapUpdate: a map field of the same struct
+		// written while only the read lock is held)
+		if st, ok := deref(instr.X.Type()).Underlying().(*types.Struct); ok && st.Field(instr.Field).Type().String() == "sync.RWMutex" {
+			if E.rwOwner == nil {
+				E.rwOwner = map[*value]*value{}
+			}
+			E.rwOwner[fa] = p
+		}
 
 	case *ssa.Field:
 		fr.env[instr] = fr.get(instr.X).(structure)[instr.Field]
@@ -365,6 +374,27 @@ func visitInstr(fr *frame, instr ssa.Instruction) continuation {
 		m := fr.get(instr.Map).(*Map)
 		if m == nil {
 			goPanic("assignment to entry in nil map")
+		}
+		// RWMutex misuse: a map that is a field of the struct whose RWMutex this goroutine holds for READING only is
+		// being written. Readers are admitted concurrently, so two of them can be here at once; Go's runtime then
+		// kills the process ("fatal error: concurrent map writes"). Decided structurally on every path, no second
+		// goroutine needed.
+		for lp, cnt := range fr.g.rlocks {
+			if cnt <= 0 {
+				continue
+			}
+			if ls := E.lockState(lp); ls.writer && ls.owner == fr.g {
+				continue
+			}
+			if owner := E.rwOwner[lp]; owner != nil {
+				if st, ok := (*owner).(structure); ok {
+					for _, fv := range st {
+						if fm, ok := fv.(*Map); ok && fm == m {
+							E.assert(False, "structural/map-written-while-only-the-read-lock-of-its-RWMutex-is-held")
+						}
+					}
+				}
+			}
 		}
 		m.insert(fr.get(instr.Key), fr.get(instr.Value))
 
